@@ -177,7 +177,11 @@ func (r *Run) event() {
 		if r.eng.race {
 			r.rs().external = true
 		}
-		c.cancel(*r.global(r.eng.prog.ImportedPackage("context").Var("Canceled")))
+		reason := r.cancelReason
+		if reason == nil {
+			reason = *r.global(r.eng.prog.ImportedPackage("context").Var("Canceled"))
+		}
+		c.cancel(reason)
 		if r.eng.race {
 			r.rs().external = false
 		}
@@ -724,17 +728,25 @@ func (e *Engine) registerConcIntrinsics() {
 		in[G+"verifQuiesce"] = func(r *Run, fr *frame, a []Value) Value {
 			return IntV{C: uint64(r.quiesce())}
 		}
-		in[G+"verifCtx"] = func(r *Run, fr *frame, a []Value) Value {
-			k := r.concreteInt(a[0], "verifCtx event")
-			c := &ctxObj{r: r, done: &ChanV{}}
-			if k == 0 {
-				c.cancel(canceled(r))
-			} else if k < 100000 {
-				r.conc()
-				r.cancelCtx, r.cancelAt = c, r.conc().events+k
+		mkCtx := func(deadline bool) intrinsicFn {
+			return func(r *Run, fr *frame, a []Value) Value {
+				k := r.concreteInt(a[0], "verifCtx event")
+				c := &ctxObj{r: r, done: &ChanV{}}
+				reason := canceled(r)
+				if deadline {
+					reason = *r.global(r.eng.prog.ImportedPackage("context").Var("DeadlineExceeded"))
+				}
+				if k == 0 {
+					c.cancel(reason)
+				} else if k < 100000 {
+					r.conc()
+					r.cancelCtx, r.cancelAt, r.cancelReason = c, r.conc().events+k, reason
+				}
+				return Iface{T: ctxT(r), V: c}
 			}
-			return Iface{T: ctxT(r), V: c}
 		}
+		in[G+"verifCtx"] = mkCtx(false)
+		in[G+"verifCtxDeadline"] = mkCtx(true)
 	}
 	_ = fmt.Sprint
 }
